@@ -56,6 +56,8 @@ RULES = [
  ('text literals keep backslashes', 'C02', 'text-literal/backslash + text-literal/line-feed + text-literal/carriage-return'),
  ('extra_data twice writes the same bytes', 'C03', 'second-save-changes-the-text-file/with-extra_data/*'),
  ('outside of the BMP survives a json save', 'C03', 'value-differs-after-load/json (non-BMP text)'),
+ ('unbounded range follows its bounded range in iterative', 'C06', 'differs-after-set_value/unbounded (SUM(A:A) ignored later writes in iterative mode)'),
+ ('below an unbounded range does not leave', 'C09', 'retry-returns-a-value/iterative/*/under-unbounded-reference'),
  ('an array and an error value', 'C13', 'array-formula-member-not-pointwise/array-with-error-valued-scalar'),
 ]
 
